@@ -6,7 +6,7 @@ From Coq Require Import List String NArith ZArith Bool.
 From SV Require Import Bin.LE Bin.Struct Bin.StructProofs Bin.RLE Bin.RLEProofs Bin.FindInsert Bin.FindInsertProofs
   Fmt.BspFormatsSpec Fmt.BspFormatsProofs Fmt.BspVisRow Fmt.BspVisRowProofs Fmt.BspTexStrings Fmt.BspTexStringsProofs
   Fmt.BspRecords Fmt.BspRecordsProofs Fmt.VmfText Fmt.BspEntLump Fmt.BspEntLumpProofs Fmt.BspDedup Fmt.BspDedupProofs Fmt.BspFlagSplit Fmt.BspFlagSplitProofs
-  Fmt.BspOverlayRec Fmt.BspOverlayRecProofs Fmt.BspWorklist Fmt.BspWorklistProofs Fmt.BspPhys Fmt.BspPhysProofs Bin.BspDeferred Bin.BspDeferredProofs Fmt.BspSpriteDict Fmt.BspSpriteDictProofs Fmt.BspSaveOrder Fmt.BspSaveOrderProofs.
+  Fmt.BspOverlayRec Fmt.BspOverlayRecProofs Fmt.BspWorklist Fmt.BspWorklistProofs Fmt.BspPhys Fmt.BspPhysProofs Bin.BspDeferred Bin.BspDeferredProofs Fmt.BspSpriteDict Fmt.BspSpriteDictProofs Fmt.BspSaveOrder Fmt.BspSaveOrderProofs Fmt.BspPropVersion Fmt.BspPropVersionProofs Fmt.BspSaveCommit Fmt.BspSaveCommitProofs.
 Import ListNotations.
 
 (** * struct: unpack inverts pack for every format and every fitting record *)
@@ -413,3 +413,94 @@ Theorem c11_save_backward_reference_refuted :
   let '(T', R', ok) := msave refs_back 5 [0; 1]%nat T0 (fun _ => []) in
   ok = true /\ items (T' 0%nat) = [9%N] /\ R' 0%nat = [] /\ R' 1%nat = [(5%N, [(0, 0)]%nat)].
 Proof. exact msave_backward_refuted. Qed.
+
+(** * Round 5: the static-prop format is chosen by the READER of an earlier file and used by the WRITER of the next *)
+(** Generic over the tables generated from [_lmp_read_props] / [_lmp_write_props] (for every BSP version, header number,
+    record size and format named beforehand: what the reader of an empty lump records, what the reader of a lump with records
+    records / decodes with, what the writer writes in and which header number it sets).  A fresh object reads a file whose
+    static-prop lump is EMPTY; props are assigned; the object saves (the records have the size of the format written in, the
+    header number is the one the writer sets, else the one of the file); a fresh object reads that file.  If the tables pass
+    [pv_from_empty_ok]: whatever format [st] the first reader settled on, the writer writes in a format [w] and the second
+    reader records [w], decodes with [w], and runs the same field ladder. *)
+Theorem c11_prop_version_from_empty_lump : forall c, pv_from_empty_ok c = true ->
+  forall bv h, In bv (c_bsp c) -> In h pv_hdrs ->
+  forall st, read_empty c bv h 0%N = Some (Some st) ->
+  exists r w lw h' sz, write_props c st h = Some (Some (r, w, lw, h')) /\ size_of c w = Some sz /\
+                       read_sized c bv h' sz 0%N = Some (Some (w, w, lw)).
+Proof. exact from_empty_stable. Qed.
+(** ... and there is no third outcome: the empty lump is rejected with an error, or a format is recorded. *)
+Theorem c11_prop_version_empty_lump_total : forall c, pv_from_empty_ok c = true ->
+  forall bv h, In bv (c_bsp c) -> In h pv_hdrs ->
+  read_empty c bv h 0%N = Some None \/ exists st, read_empty c bv h 0%N = Some (Some st).
+Proof. exact from_empty_total. Qed.
+(** Props assigned to an object that NEVER read the lump (no format recorded), whatever header number the opened file has:
+    the writer falls back to a format [w] and the fresh reader of the saved file records and decodes with [w]. *)
+Theorem c11_prop_version_never_read : forall c, pv_never_read_ok c = true ->
+  forall bv h, In bv (c_bsp c) -> In h pv_hdrs ->
+  exists r w lw h' sz, write_props c 0%N h = Some (Some (r, w, lw, h')) /\ size_of c w = Some sz /\
+                       read_sized c bv h' sz 0%N = Some (Some (w, w, lw)).
+Proof. exact never_read_stable. Qed.
+(** The caller names the format [m]: it is the format written, under its own header number; a fresh reader settles on a format
+    [d] with the header number and the record size of [m], records what it decodes with and - if [d] is [m] - runs the writer's
+    ladder; named to the reader, [m] is believed, also by the reader of an empty lump.  (Two members may share the pair: the file
+    cannot say which it holds.) *)
+Theorem c11_prop_version_named : forall c, pv_named_ok c = true ->
+  forall bv m, In bv (c_bsp c) -> (1 <= m <= N.of_nat (List.length (c_members c)))%N ->
+  exists lw h sz d ld,
+    hdr_of c m = Some h /\ size_of c m = Some sz /\ write_props c m h = Some (Some (m, m, lw, h)) /\
+    read_sized c bv h sz 0%N = Some (Some (d, d, ld)) /\ (d = m -> ld = lw) /\ hdr_of c d = Some h /\ size_of c d = Some sz /\
+    read_sized c bv h sz m = Some (Some (m, m, lw)) /\ read_empty c bv h m = Some (Some m).
+Proof. exact named_detected. Qed.
+(** When no other member has the (header number, record size) of [m], the fresh reader finds [m] itself. *)
+Theorem c11_prop_version_detected : forall c, pv_named_ok c = true ->
+  forall bv m, In bv (c_bsp c) -> (1 <= m <= N.of_nat (List.length (c_members c)))%N -> unique_pair c m = true ->
+  exists lw h sz, hdr_of c m = Some h /\ size_of c m = Some sz /\ write_props c m h = Some (Some (m, m, lw, h)) /\
+                  read_sized c bv h sz 0%N = Some (Some (m, m, lw)).
+Proof. exact named_detected_unique. Qed.
+(** The guess for an empty lump stops at the FIRST member with the header number while files with records of that size are
+    read as the second: written in format 1 (ladder 11), decoded as format 2 (ladder 7).  The last-match guess passes. *)
+Theorem c11_prop_version_first_match_refuted :
+  hist_from_empty_ok pv_first_match_cfg 20 11 = false /\
+  hist_from_empty pv_first_match_cfg 20 11 = Some (Some (1, 11, Some (2, 2, 7)))%N /\
+  hist_from_empty_ok pv_last_match_cfg 20 11 = true.
+Proof. exact first_match_refuted. Qed.
+(** The writer falls back to format 1 (header number 5, 60 bytes) but leaves the header number of the opened file (10): the
+    fresh reader raises.  A writer that sets the header number passes. *)
+Theorem c11_prop_version_header_left_refuted :
+  hist_never_read_ok pv_header_left_cfg 20 10 = false /\
+  hist_never_read pv_header_left_cfg 20 10 = Some (1, 5, None)%N /\
+  hist_never_read_ok pv_header_set_cfg 20 10 = true.
+Proof. exact header_left_refuted. Qed.
+
+(** The three histories in one statement, for tables that pass [pv_ok] (discharged for today's tables on every run as
+    [prop_format_tables_pass]): whatever was read before - an empty lump, nothing at all, or a format named by the caller -, the
+    format the props are written in is the format a fresh reader of the saved file decodes them with.  Together with
+    [c11_prop_layout_agree] (for every format the reader's and the writer's field ladders agree and have the declared size)
+    this is "static props in every supported format version" for every history that leads to the writer. *)
+Theorem c11_static_prop_format_property : forall c, pv_ok c = true ->
+  forall bv, In bv (c_bsp c) ->
+  (forall h, In h pv_hdrs -> read_empty c bv h 0%N = Some None \/
+                             exists st, read_empty c bv h 0%N = Some (Some st) /\ found_again c bv h st) /\
+  (forall h, In h pv_hdrs -> found_again c bv h 0%N) /\
+  (forall m, (1 <= m <= N.of_nat (List.length (c_members c)))%N ->
+     exists h sz lw, hdr_of c m = Some h /\ size_of c m = Some sz /\ read_empty c bv h m = Some (Some m) /\
+                     write_props c m h = Some (Some (m, m, lw, h)) /\ read_sized c bv h sz m = Some (Some (m, m, lw)) /\
+                     (unique_pair c m = true -> read_sized c bv h sz 0%N = Some (Some (m, m, lw)))).
+Proof. exact pv_property. Qed.
+
+(** * Round 5: what save() leaves behind when a writer rejects a value *)
+(** Generic over the event list read from the rebuild loop of [save()] (the view leaves the cache / a point that can raise / the
+    bytes are stored in the lump): if it passes [commit_ok], then whichever raising point raises, the view is still in the cache
+    when save() gives up and nothing was stored - the caller can repair the value and save again -, and when nothing raises the
+    view has left the cache and its bytes are in the lump. *)
+Theorem c11_rejected_save_keeps_the_view : forall evs, commit_ok evs = true ->
+  (forall k, let '(s, finished) := sc_run evs (Some k) sc_init in finished = false -> cached s = true /\ stored s = false) /\
+  (let '(s, finished) := sc_run evs None sc_init in finished = true /\ cached s = false /\ stored s = true).
+Proof. exact commit_ok_sound. Qed.
+(** The view is popped from the cache before its writer runs: a writer that raises leaves it neither in the cache nor in the lump
+    (the next save() writes an empty lump without any error).  Dropping it after the last raising point passes. *)
+Theorem c11_rejected_save_pop_first_refuted :
+  commit_ok [EvDrop; EvRaise; EvStore] = false /\
+  sc_run [EvDrop; EvRaise; EvStore] (Some 0%nat) sc_init = ({| cached := false; stored := false |}, false) /\
+  commit_ok [EvRaise; EvDrop; EvStore] = true.
+Proof. exact commit_pop_first_refuted. Qed.
